@@ -115,6 +115,14 @@ CLAIMS = {
          "through a point on a 3D line, irrational bisectors) are checked through the stated relation; singles and collections "
          "with mixed on/off masks.",
     design="5/C10", technique="TLC lattice enumeration with exact constructions + replay (exact classes or stated relations)"),
+ "C11": dict(
+    text="C11_CrossRatio.tla: points a + x b with parameters from P^1(Q) (incl. the point b itself and the origin, one repeated "
+         "point) on carriers of P^1, P^2, P^3, pencils of lines through vertices at the origin / on the axes / at infinity / "
+         "generic, pencils of planes through lattice axes (incl. an axis at infinity), the from_point form, harmonic sets, "
+         "collinear and non-collinear quadruples; TLC certifies the closed form from the coordinates, the five symmetries, the "
+         "pencil value through dual coordinates, invariance under the matrix pool and cr(a,b,c,harmonic) = -1; geometer's values, "
+         "harmonic points and NotCollinear/NotConcurrent are compared, singles, scaled representatives and collections.",
+    design="5/C11", technique="TLC enumeration of parameter quadruples and pencils with a rational cross-ratio oracle + replay"),
 }
 
 checks = []
